@@ -40,8 +40,11 @@ fn access_reason(start: u128, len: u128, stack_len: u64, hp: u64) -> Option<Pani
 }
 
 /// The property, checked on one step.  Returns failures (class, description).
-fn oracle_step(l: &TxLayout, t: &Tracked) -> Vec<(String, String)> {
+fn oracle_step(l: &TxLayout, t: &Tracked, perturb: bool) -> Vec<(String, String)> {
     let s = t.step;
+    // --perturb 1 (self-test of the oracle, never used by ./check): pretend stores hit 4096 bytes lower
+    let shifted: Vec<(u64, u64)> = t.changed.iter().map(|(a, n)| (a.saturating_sub(4096), *n)).collect();
+    let changed_obs = if perturb && matches!(wclass(&s.mnemonic), WClass::Store(_)) { &shifted } else { &t.changed };
     let m = s.mnemonic.as_str();
     let rb = &s.regs_before;
     let ra = &s.regs_after;
@@ -52,7 +55,7 @@ fn oracle_step(l: &TxLayout, t: &Tracked) -> Vec<(String, String)> {
     let fv = s.field_values();
     let mut fails = vec![];
     let user = matches!(cls, WClass::Store(_) | WClass::Clear | WClass::Copy | WClass::User | WClass::UserMulti | WClass::Ecal);
-    for (a, n) in &t.changed {
+    for (a, n) in changed_obs {
         for x in *a..a + n {
             let ok = (user && owned(x, ssp, sp, hp, prev_hp))
                 || (cls == WClass::Push && sp <= x && x < ra[R_SP])
@@ -127,6 +130,7 @@ fn coq_step(t: &Tracked) -> Option<String> {
 }
 
 fn run_scenario(out: &mut Out, st: &mut Stats, world: &World, tx: &TxSpec, replay: Value, stream: &str, note: &str, oracle_only: bool) {
+    let perturb = std::env::args().any(|a| a == "--perturb");
     let opts = TraceOpts { max_steps: 6000, mem_diff: true, storage: false, frames: true };
     let tr = match guarded(|| trace(world, tx, &opts)) {
         Ok(Ok(t)) => t,
@@ -156,7 +160,7 @@ fn run_scenario(out: &mut Out, st: &mut Stats, world: &World, tx: &TxSpec, repla
                 memp += 1;
             }
         }
-        for f in oracle_step(&layout, t) { failures.push(f); }
+        for f in oracle_step(&layout, t, perturb) { failures.push(f); }
         match coq_step(t) {
             Some(c) => {
                 if let Some(op) = c.strip_prefix('Q') { st.quiet += 1; quiet_run.push(op.to_string()); }
@@ -174,6 +178,7 @@ fn run_scenario(out: &mut Out, st: &mut Stats, world: &World, tx: &TxSpec, repla
         out.oracle_fail(&class, &what, replay.clone());
     }
     if !quiet_run.is_empty() { coq_steps.push(format!("OQuiet {}", coq_list(&quiet_run))); }
+    if unprintable { out.count("scenario-with-non-panic-interpreter-error (not printed as a case)"); }
     if oracle_only || unprintable { return; }
     let coq = format!("{{| oc_env := {}; oc_steps := {} |}}", layout.to_coq_env(), coq_list(&coq_steps));
     let key = format!("{:x}", { use std::hash::{Hash, Hasher}; let mut h = std::collections::hash_map::DefaultHasher::new(); sig.hash(&mut h); h.finish() });
@@ -222,7 +227,7 @@ fn main() {
         }
     } else {
         // stream A: vmtrace's grammar (memory / wide / crypto / storage / call items, fault injection)
-        for _ in 0..args.scale(90, 2500) {
+        for _ in 0..args.scale(90, 800) {
             let mut cfg = GenCfg::default();
             cfg.n_contracts = rng.below(4) as usize;
             cfg.unit_items = rng.range(6, 22) as usize;
@@ -235,7 +240,7 @@ fn main() {
             run_scenario(&mut out, &mut st, &scn.world, &scn.tx, rj, "grammar", "", oo);
         }
         // stream B: call trees with callee allocation, shrink/regrow, LDC, VM-own writes
-        for k in 0..args.scale(90, 2500) {
+        for k in 0..args.scale(90, 800) {
             let cfg = TreeCfg { n_contracts: rng.below(4) as usize, recursion: if rng.chance(1, 3) { rng.range(1, 6) } else { 0 }, hostile: Hostile::None, hostile_unit: 0,
                                 ldc: k % 2 == 0, actions: rng.range(2, 10) as usize, schedule: if rng.chance(1, 4) { GasSchedule::Unit } else { GasSchedule::Default },
                                 gas_limit: 20_000_000, touch: false };
@@ -244,7 +249,7 @@ fn main() {
             run_scenario(&mut out, &mut st, &t.scn.world, &t.scn.tx, rj, "tree", "", oo);
         }
         // stream C: one hostile access per transaction
-        let hs = hostile_matrix(&mut rng, args.scale(140, 4000));
+        let hs = hostile_matrix(&mut rng, args.scale(140, 1500));
         for h in hs {
             let n = rng.below(4) as usize;
             let cfg = TreeCfg { n_contracts: n, recursion: if rng.chance(1, 4) { rng.range(1, 4) } else { 0 }, hostile: h, hostile_unit: rng.below(n as u64 + 1) as usize,
@@ -254,7 +259,7 @@ fn main() {
             run_scenario(&mut out, &mut st, &t.scn.world, &t.scn.tx, rj, "hostile", &t.note, oo);
         }
         // stream D: stack grown until it touches the heap, write across the boundary (64 MiB buffers: few)
-        for k in 0..args.scale(2, 12) {
+        for k in 0..args.scale(2, 6) {
             let h = if k % 2 == 0 { Hostile::Write(11, rng.below(8) as u8) } else { Hostile::Write(13, 0) };
             let cfg = TreeCfg { n_contracts: (k % 2) as usize, recursion: 0, hostile: h, hostile_unit: (k % 2) as usize, ldc: false, actions: 1,
                                 schedule: GasSchedule::Free, gas_limit: 20_000_000, touch: true };
